@@ -101,6 +101,8 @@ func randomJob(rng *rand.Rand, idx int) Job {
 	job.Dst = dstSpecs[rng.Intn(len(dstSpecs))]
 	job.Dst.Human = rng.Intn(4) == 0
 	job.Dst.Seek = rng.Intn(2) == 0
+	job.Dst.Open = rng.Intn(3) == 0
+	job.Dst.LatePut = rng.Intn(2) == 0
 	job.Origin = fmt.Sprintf("random/%d", idx)
 	return job
 }
@@ -271,6 +273,7 @@ func depthJobs(ctx *core.Ctx) []Job {
 				}
 				job.Dst = dstSpecs[(idx+rng.Intn(8))%len(dstSpecs)]
 				job.Dst.Seek = idx%2 == 0
+				job.Dst.Open = idx%4 == 1
 				jobs = append(jobs, job)
 				idx++
 			}
